@@ -251,12 +251,24 @@ func SyntheticRegistriesFor(run *core.Run, p *Preset, thorough bool, st *SynthSt
 							continue
 						}
 						atomic.AddInt64(&st.Transitions, int64(end-ref.Slot))
-						if r := node.StepSlots(ctx, end); r.Mismatch != "" {
-							rep("transition/"+r.Sig, r.Mismatch)
-							continue
+						// the hook is evaluated after EACH of the two boundaries: the first one is where the effective
+						// balances of the "neighbour" registries move, and a context that rotates with stale data is
+						// right again one rotation later (seeded change C08-o)
+						failed := false
+						for _, stop := range []uint64{(cur + 1) * c.SlotsPerEpoch, end} {
+							if r := node.StepSlots(ctx, stop); r.Mismatch != "" {
+								rep("transition/"+r.Sig, r.Mismatch)
+								failed = true
+								break
+							}
+							if fs := hook(node, node.Ref.Slot); len(fs) > 0 {
+								rep("after-transition/"+fs[0].Sig, fs[0].Msg)
+								failed = true
+								break
+							}
 						}
-						if fs := hook(node, node.Ref.Slot); len(fs) > 0 {
-							rep("after-transition/"+fs[0].Sig, fs[0].Msg)
+						if failed {
+							continue
 						}
 					}
 				}
